@@ -112,6 +112,9 @@ MEDDLY::unary_operation::~unary_operation()
 
 void MEDDLY::unary_operation::compute(const dd_edge &arg, dd_edge &res)
 {
+    if (!arg.isAttachedTo(argF) || !res.isAttachedTo(resF)) {
+        throw error(error::FOREST_MISMATCH, __FILE__, __LINE__);
+    }
     if (!checkForestCompatibility()) {
         throw error(error::INVALID_OPERATION, __FILE__, __LINE__);
     }
@@ -139,6 +142,9 @@ void MEDDLY::unary_operation::compute(const dd_edge &arg, dd_edge &res)
 #ifdef ALLOW_OLD_UNARY_0_17_6
 void MEDDLY::unary_operation::computeTemp(const dd_edge &arg, dd_edge &res)
 {
+    if (!arg.isAttachedTo(argF) || !res.isAttachedTo(resF)) {
+        throw error(error::FOREST_MISMATCH, __FILE__, __LINE__);
+    }
     if (!checkForestCompatibility()) {
         throw error(error::INVALID_OPERATION, __FILE__, __LINE__);
     }
